@@ -541,7 +541,33 @@ class AgreementMonitor(Monitor):
         self.unpublished = {}   # (observer nick, source nick) -> namespecs whose event was not published to observer
         self.snapshot_taken = set()
         w.on_hook('instance_state', self.on_instance_state)
+        w.on_hook('force_process_state', self.on_forced)
         w.listeners.append(self.on_event)
+        self.blind_forced = {}  # namespec -> [(vt, sender nick, hosts not seen active)]
+
+    def on_forced(self, inst, process, identifier, event_time, forced_state, reason):
+        # a state forced by an instance that does not see (all) the Supervisors where the process truly runs
+        w = self.run.world
+        view = self.peer_view.get((inst.nick, inst.inc), {})
+        blind = [other.nick for other in w.live()
+                 if other.running_truth().get(process.namespec) in RUNNING_STATES
+                 and other.nick != inst.nick and view.get(other.identifier, 'STOPPED') not in ('CHECKED', 'RUNNING')]
+        if blind and int(forced_state) not in RUNNING_STATES:
+            self.blind_forced.setdefault(process.namespec, []).append((vt(w), inst.nick, blind))
+            self.count('forced_states_without_seeing_the_host')
+
+    def forced_mechanism(self, nick, namespec):
+        """ The instance displays a forced stopped-like state over a process that truly runs, and that state has been
+        forced by an instance that did not see the host of the process at that moment (handshake in progress). """
+        w = self.run.world
+        try:
+            process = w.instances[nick].supvisors.context.get_process(namespec)
+        except KeyError:
+            return ''
+        if process.forced_state is not None and process.forced_state not in RUNNING_STATES and \
+                process.state in RUNNING_STATES and self.blind_forced.get(namespec):
+            return ':state-forced-by-an-instance-not-seeing-the-host'
+        return ''
 
     def on_instance_state(self, inst, identifier, new_state):
         self.peer_view.setdefault((inst.nick, inst.inc), {})[identifier] = new_state.name
@@ -647,6 +673,8 @@ class AgreementMonitor(Monitor):
                         mech = ':event-lost-in-handshake-window' if namespec in flagged else \
                             (self.mechanism(nicks[0], namespec, set(p['identifiers']) | set(q['identifiers'])) or
                              self.mechanism(other, namespec, set(p['identifiers']) | set(q['identifiers'])))
+                        if not mech and set(p['identifiers']) == set(q['identifiers']):
+                            mech = self.forced_mechanism(nicks[0], namespec) or self.forced_mechanism(other, namespec)
                         self.violate(f'C12/disagreement{mech}', f'{nicks[0]} reports {namespec} {p["statename"]} on '
                                      f'{sorted(w.by_identifier[i] for i in p["identifiers"])} while {other} reports '
                                      f'{q["statename"]} on {sorted(w.by_identifier[i] for i in q["identifiers"])} '
